@@ -167,7 +167,7 @@ Proof.
   rewrite while_loop_S. cbn [loop_model line fst snd w_t w_i w_fi w_fl w_sc].
   unfold fails, bump in *. cbn [fst snd] in *.
   unfold v_self in *. unfold wk at 1. cbn [w_t w_i w_fi w_fl w_sc fst snd].
-  destruct (ev_answer fl sc) eqn:A; [|destruct (tcn + 1 =? tfl) eqn:F]; timeout 120 pysteps.
+  destruct (ev_answer fl sc) eqn:A; [|destruct (tcn + 1 =? tfl) eqn:F]; timeout 600 pysteps.
   - reflexivity.
   - reflexivity.
   - etransitivity; [|exact IH]. reflexivity.
@@ -211,8 +211,8 @@ Proof.
   destruct x as [[tcn tfl] i fi fl sc]. unfold line_out, v_self, wk.
   cbv [nth_stmt f_body ThreadCommon__thread_loop].
   destruct fi as [[fcn ffl]|]; cbn [ocb line w_t w_i w_fi w_fl w_sc fst snd]; unfold fails, bump; cbn [fst snd].
-  - destruct (fcn + 1 =? ffl) eqn:Ff; timeout 120 pysteps; reflexivity.
-  - timeout 120 pysteps. reflexivity.
+  - destruct (fcn + 1 =? ffl) eqn:Ff; timeout 600 pysteps; reflexivity.
+  - timeout 600 pysteps. reflexivity.
 Qed.
 
 Lemma thread_loop_func m x h nm :
@@ -222,18 +222,18 @@ Proof.
   destruct x as [[tcn tfl] i fi fl sc]. pystart. unfold body_model, line_out.
   destruct i as [[icn ifl]|]; cbn [line w_t w_i w_fi w_fl w_sc fst snd]; unfold fails at 1, bump at 1; cbn [fst snd].
   - unfold wk at 1. cbn [w_t w_i w_fi w_fl w_sc fst snd ocb].
-    destruct (icn + 1 =? ifl) eqn:Fi; timeout 120 pysteps; [reflexivity|].
+    destruct (icn + 1 =? ifl) eqn:Fi; timeout 600 pysteps; [reflexivity|].
     loop_env (mkWs (tcn, tfl) (Some (icn + 1, ifl)) fi fl sc) h nm.
     rewrite loop_lemma. cbn [after].
     destruct (loop_model (S (S m)) _) as [x'|x'|]; cbn [emb_loop after emb_out bind];
-      [|timeout 120 pysteps; reflexivity|reflexivity].
+      [|timeout 600 pysteps; reflexivity|reflexivity].
     apply (final_part m (S (S m)) x' h nm).
   - unfold wk at 1. cbn [w_t w_i w_fi w_fl w_sc fst snd ocb].
-    timeout 120 pysteps.
+    timeout 600 pysteps.
     loop_env (mkWs (tcn, tfl) None fi fl sc) h nm.
     rewrite loop_lemma. cbn [after].
     destruct (loop_model (S (S m)) _) as [x'|x'|]; cbn [emb_loop after emb_out bind];
-      [|timeout 120 pysteps; reflexivity|reflexivity].
+      [|timeout 600 pysteps; reflexivity|reflexivity].
     apply (final_part m (S (S m)) x' h nm).
 Qed.
 
